@@ -76,7 +76,7 @@ func (r Rounder) Round(c *Context, d, x *Decimal, disableIfPrecisionZero bool) C
 
 	if disableIfPrecisionZero && c.Precision == 0 {
 		// Rounding has been disabled.
-		return d.setExponent(c, nd, res, int64(d.Exponent))
+		return d.exponentLimit(c, d.setExponent(c, nd, res, int64(d.Exponent)))
 	}
 
 	// adj is the adjusted exponent: exponent + clength - 1
@@ -116,7 +116,10 @@ func (r Rounder) Round(c *Context, d, x *Decimal, disableIfPrecisionZero bool) C
 		diff = 0
 	}
 	res |= d.setExponent(c, nd, res, int64(d.Exponent), diff)
-	return res
+	// A carry of the rounding, or a value that was too large to begin with, can
+	// leave the package limits: the coefficient has been rounded but the
+	// exponent not stored.
+	return d.exponentLimit(c, res)
 }
 
 // roundAddOne adds 1 to abs(b).
